@@ -491,11 +491,51 @@ def unit_table(g, depth, last, eop_ok):
     return [key] + mid + [D.table_struct(g.name(), kname)]
 
 
+def gen_dtc_dop(g, n, hl):
+    """a DTC-DOP; 40 %: some of its DTCs are not its own children but DTC-REFs to DTCs of another DTC-DOP of the layer or inherited
+    through LINKED-DTC-DOPS (one level or a chain of two; some NOT-INHERITED; sometimes a library DTC whose short name the
+    inheriting DOP defines itself and therefore is not inherited); the DTC-DOPs referred to are declared before or behind it"""
+    rng = g.rng
+    codes = rng.sample(range(1, 1 << min(n, 16)), 7)
+
+    def mk(cs):
+        return [(c, g.name("DTC")) for c in cs]
+
+    def dd(dtcs, **kw):
+        return D.DtcDop(D.Std("A_UINT32", n, None, hl), "A_UINT32", D.Identical(), dtcs, **kw)
+
+    if rng.random() >= 0.4:
+        return dd(mk(codes[:3]))
+    mode = rng.choice(["linked", "linked", "ref", "chain", "linked+ref"])
+    own = mk(codes[:rng.choice([0, 1, 1, 2])])
+    lib = dd(mk(codes[2:5]), lib_first=rng.choice([None, True]))
+    first = rng.choice([None, True, False])
+    if mode == "ref":
+        picks = rng.sample(lib.dtcs, rng.randint(1, 2))
+        return dd(own or mk(codes[:1]), dtc_refs=[(lib, n_) for _, n_ in picks], lib_first=first)
+    if mode == "chain":
+        lib = dd(mk(codes[5:6]), linked=[D.LinkedDtcDop(lib, [lib.dtcs[0][1]] if rng.random() < 0.4 else [])], lib_first=rng.choice([None, True]))
+    ni = [rng.choice(D.effective_dtcs(lib))[1]] if rng.random() < 0.4 else []
+    if own and rng.random() < 0.25:
+        # a local DTC with the short name of a library DTC: the local one wins, the library one is not inherited
+        shadowed = next(((c, n_) for c, n_ in lib.dtcs if n_ not in ni), None)
+        if shadowed is not None:
+            own[0] = (own[0][0], shadowed[1])
+    refs = None
+    if mode == "linked+ref":
+        other = dd(mk(codes[6:7]))
+        refs = [(other, other.dtcs[0][1])]
+    out = dd(own, dtc_refs=refs, linked=[D.LinkedDtcDop(lib, ni)], lib_first=first)
+    if not D.effective_dtcs(out):
+        out.dtcs = mk(codes[:1])
+    return out
+
+
 def unit_dtc(g, depth, last, eop_ok):
     rng = g.rng
     n = rng.choice([8, 16, 24, 24])
-    codes = rng.sample(range(1, 1 << min(n, 16)), 3)
-    dd = D.DtcDop(D.Std("A_UINT32", n, None, rng.choice([None, False])), "A_UINT32", D.Identical(), [(c, g.name("DTC")) for c in codes])
+    dd = gen_dtc_dop(g, n, rng.choice([None, False]))
+    codes = [c for c, _ in D.effective_dtcs(dd)]
     dname = g.name("d")
     out = [D.value(dname, dd)]
     if rng.random() < 0.6 and depth < g.profile.max_depth:
@@ -1222,6 +1262,84 @@ def enum_field_layouts():
                         val = {"f": vals, "z": 0x5A}
                     yield D.Composite(f"FL{n}", "request", ps), val
 
+def enum_minmax_wire(full=False):
+    """terminated (and END-OF-PDU) MIN-MAX-LENGTH objects seen from the wire: every base type x termination x byte order (two-byte
+    code units) x (MIN-LENGTH, MAX-LENGTH) in {(0, -), (0, 2 units), (2 units, 3 units), (1 unit, -)} x followed by a parameter /
+    ending the PDU, in `[sid, t, (y:u8)]`, with EVERY value of up to k code units over the alphabet built from the bytes 00, ff, 41
+    (one-byte units: the three bytes resp. U+0000, U+00FF, 'A', k = 3; two-byte units: all nine combinations 0000 00ff 0041 ff00 ffff
+    ff41 4100 41ff 4141, k = 2) plus every value of k + 1 units over the sub-alphabet built from the termination byte and 41 - i.e.
+    the termination byte at every offset, aligned and not aligned, in front of and behind MIN-LENGTH, adjacent to the real
+    terminator.  full: k + 1 (resp. k + 2) units.  Yields (composite, value); which values have a canonical wire form is decided
+    by refpdu.sequential_pdu"""
+    import itertools
+    n = 0
+    for bt in ("A_UNICODE2STRING", "A_ASCIISTRING", "A_UTF8STRING", "A_BYTEFIELD"):
+        unit = 2 if bt == "A_UNICODE2STRING" else 1
+        k = (2 if unit == 2 else 3) + (1 if full else 0)
+
+        def units(bs):
+            if unit == 2:
+                return [chr(256 * a + b) for a in bs for b in bs]
+            return [bytes([b]) if bt == "A_BYTEFIELD" else chr(b) for b in bs]
+
+        def words(alpha, lens):
+            join = (lambda t: b"".join(t)) if bt == "A_BYTEFIELD" else (lambda t: "".join(t))
+            return [join(t) for m in lens for t in itertools.product(alpha, repeat=m)]
+
+        for term in ("ZERO", "HEX-FF", "END-OF-PDU"):
+            values = words(units((0x00, 0xff, 0x41)), range(k + 1))
+            if term != "END-OF-PDU":
+                values += words(units(((0x00 if term == "ZERO" else 0xff), 0x41)), (k + 1,))
+            for hl in ((None, False) if unit == 2 else (None,)):
+                for mn, mx in ((0, None), (0, 2 * unit), (2 * unit, 3 * unit), (unit, None)):
+                    for tail in ((False,) if term == "END-OF-PDU" else (True, False)):
+                        n += 1
+                        dct = D.MinMax(bt, mn, mx, term, None, hl)
+                        ps = [D.sid(), D.value("t", D.SimpleDop(dct, bt))] + ([D.value("y", D.u8())] if tail else [])
+                        comp = D.Composite(f"W{n}", "request", ps)
+                        for v in values:
+                            yield comp, ({"t": v, "y": 0xA5} if tail else {"t": v})
+
+
+def enum_dtc_sources():
+    """every way a DTC-DOP obtains the DTCs it describes, in `[sid, d, y:u8]`: own DTC children only; DTC-REF to a DTC of another
+    DTC-DOP; LINKED-DTC-DOPS (inherit all / one NOT-INHERITED / a local DTC with the short name of a library DTC, which then is
+    not inherited / no own DTC at all / two linked DTC-DOPs whose DTCs clash by short name / a chain of two links with
+    NOT-INHERITED on either level / linked + DTC-REF) x the DTC-DOPs referred to declared in front of or behind their user (every
+    combination along a chain) x coded type 8 bit / 16 bit / 24 bit low-high.  Yields (composite, codes), codes = every trouble
+    code that occurs anywhere in the document (the described ones are D.effective_dtcs of the DTC-DOP of `d`)"""
+    import itertools
+    n = 0
+    for bits, hl in ((8, None), (16, None), (24, False)):
+        sh = bits - 8
+
+        def dd(dtcs, **kw):
+            return D.DtcDop(D.Std("A_UINT32", bits, None, hl), "A_UINT32", D.Identical(), dtcs, **kw)
+
+        A, B, C, E, F = [((0x11 * (i + 1)) << sh | (i + 1 if sh else 0), nm) for i, nm in enumerate(["DTC_A", "DTC_B", "DTC_C", "DTC_E", "DTC_F"])]
+        L = D.LinkedDtcDop
+        shapes = {
+            "own": lambda o: dd([A, B]),
+            "ref": lambda o: dd([A], dtc_refs=[(dd([B, C]), "DTC_C")], lib_first=o[0]),
+            "ref-only": lambda o: dd([], dtc_refs=[(dd([B, C]), "DTC_B")], lib_first=o[0]),
+            "linked": lambda o: dd([A], linked=[L(dd([B, C]), [])], lib_first=o[0]),
+            "linked-not-inherited": lambda o: dd([A], linked=[L(dd([B, C]), ["DTC_C"])], lib_first=o[0]),
+            "linked-shadowed": lambda o: dd([(A[0], "DTC_B")], linked=[L(dd([B, C]), [])], lib_first=o[0]),
+            "linked-only": lambda o: dd([], linked=[L(dd([B, C]), [])], lib_first=o[0]),
+            "two-links": lambda o: dd([A], linked=[L(dd([B]), []), L(dd([C, (E[0], "DTC_B")]), [])], lib_first=o[0]),
+            "chain": lambda o: dd([A], linked=[L(dd([E], linked=[L(dd([B, C]), [])], lib_first=o[1]), [])], lib_first=o[0]),
+            "chain-not-inherited": lambda o: dd([A], linked=[L(dd([E, F], linked=[L(dd([B, C]), ["DTC_B"])], lib_first=o[1]), ["DTC_E"])], lib_first=o[0]),
+            "linked+ref": lambda o: dd([A], dtc_refs=[(dd([E, F]), "DTC_F")], linked=[L(dd([B, C]), ["DTC_B"])], lib_first=o[0]),
+        }
+        for tag, mk in shapes.items():
+            orders = [(None, None)] if tag == "own" else list(itertools.product((True, False), repeat=2 if tag.startswith("chain") else 1))
+            for o in orders:
+                o = tuple(o) + (None,) * (2 - len(o))
+                n += 1
+                c = D.Composite(f"DS{n}", "request", [D.sid(), D.value("d", mk(o)), D.value("y", D.u8())])
+                c.meta = {"dtc-source:" + tag: 1}
+                yield c, [x[0] for x in (A, B, C, E, F)]
+
 
 # ------------------------------------------------------------------ measured input distribution
 def features(comp):
@@ -1246,6 +1364,9 @@ def features(comp):
 
     def dop_feats(d, bitpos):
         out.append(("dop", d.tag))
+        if isinstance(d, D.DtcDop):
+            for f in D.dtc_sources(d):
+                out.append(("dtc_source", f))
         if isinstance(d, (D.SimpleDop, D.DtcDop)):
             dct_feats(d.dct, bitpos)
             out.append(("compu", d.compu.tag))
